@@ -104,8 +104,12 @@ func (o *histogramOperator) Next(ctx context.Context) ([]model.StepVector, error
 
 	o.scalarPoints = o.scalarPoints[:0]
 	for _, scalar := range scalars {
+		// Keep one entry per step so that quantiles stay paired with their step
+		// when the scalar has no sample at some of them.
 		if len(scalar.Samples) > 0 {
 			o.scalarPoints = append(o.scalarPoints, scalar.Samples[0])
+		} else {
+			o.scalarPoints = append(o.scalarPoints, math.NaN())
 		}
 		o.scalarOp.GetPool().PutStepVector(scalar)
 	}
